@@ -4,6 +4,7 @@ seed=$1; shift
 cd /repo || exit 2
 if ! git diff --quiet; then echo "repo has uncommitted changes"; exit 2; fi
 git apply /verif/seeded/$seed/patch.diff || { echo "patch does not apply"; exit 2; }
+git reset -q
 for p in "$@"; do
   (cd /verif && ./bin/govc check --property $p --tier quick > /tmp/seedrun.$$.log 2>&1; echo "[$seed $p] exit=$?" >> /tmp/seedrun.$$.log)
   grep -v '^globals' /tmp/seedrun.$$.log | sed "s/^/[$seed $p] /" | cut -c1-260; rm -f /tmp/seedrun.$$.log
